@@ -486,7 +486,7 @@ def expected_equality_connect(R, is_sparse=False):
     j2, _ = reader_jac(R, pos2, b2, c)
     return [(True, sub(j1[r], j2[r]))]
 
-  pre = [("site ids valid for site-type constraints", True)]
+  pre = [("a site-type equality exists only in a model with sites (nsite > 0)", Or(Not(is_site), gt(R.scalar("nsite"), 0)))]
   if R.sym and is_sparse:
     cols = [z3.Int("c")] + list(range(R.U))
     pre.append(("sparse walk invariants: weld root shares ancestors / tree root / cvel; dof_parentid decreases; body_isdofancestor = chain from the weld root's last dof; chains <= unroll bound", And(*(tree_pre(R, b1, cols) + tree_pre(R, b2, cols)))))
